@@ -78,3 +78,73 @@ theorem checkValues_ok_each : (ds : List Disc) → (seen s : List String) → ch
       · exact checkValues_ok_each r s1 s h d' hd'
 
 end Impl
+
+namespace Impl
+
+/-- all digests embedded in the values of a list of disclosures, in list order -/
+def embeddedValues (ds : List Disc) : List String := (ds.map (fun d => embedded d.value)).flatten
+
+/-- the pre-pass over the disclosure values: one shared set of seen digests -/
+theorem checkValues_spec : (ds : List Disc) → (seen s : List String) → checkValues ds seen = .ok s →
+    s = seen ++ embeddedValues ds ∧ (∀ g ∈ embeddedValues ds, g ∉ seen) ∧ (embeddedValues ds).Nodup ∧
+    ∀ d ∈ ds, hasBadSd d.value = false ∧ hasBadPlaceholder d.value = false
+  | [], seen, s, h => by
+    simp only [checkValues, Outcome.ok.injEq] at h
+    subst h
+    simp [embeddedValues]
+  | d :: r, seen, s, h => by
+    unfold checkValues at h
+    cases hc : checkDigests d.value seen with
+    | panic => simp [hc] at h
+    | err e => simp [hc] at h
+    | ok s1 =>
+      simp only [hc] at h
+      obtain ⟨e1, e2, e3, e4, e5⟩ := checkDigests_ok d.value seen s1 hc
+      obtain ⟨f1, f2, f3, f4⟩ := checkValues_spec r s1 s h
+      obtain ⟨g1, g2, g3⟩ := compose_seen e1 e2 e3 f1 f2 f3
+      refine ⟨by simpa [embeddedValues] using g1, by simpa [embeddedValues] using g2,
+        by simpa [embeddedValues] using g3, ?_⟩
+      intro d' hd'
+      simp only [List.mem_cons] at hd'
+      rcases hd' with rfl | hd'
+      · exact ⟨e4, e5⟩
+      · exact f4 d' hd'
+
+/-- **What acceptance implies, globally (D17/D18 across payload and disclosures).** If the
+restorer accepts, then — for the decoded disclosures `ds` — no `_sd` is a non-array and no
+placeholder has extra members, anywhere in the payload or in ANY disclosure's value, and all
+digests embedded in the payload and in all disclosure values together are pairwise distinct. -/
+theorem restoreAll_ok_global (env : Env) (P : J) (L : List String) (r : J × List PathEntry)
+    (h : restoreAll env P L = .ok r) :
+    ∃ ds, decodeAll env L [] = .ok ds ∧ (embedded P ++ embeddedValues ds).Nodup ∧
+      hasBadSd P = false ∧ hasBadPlaceholder P = false ∧
+      ∀ d ∈ ds, hasBadSd d.value = false ∧ hasBadPlaceholder d.value = false := by
+  unfold restoreAll at h
+  cases hd : decodeAll env L [] with
+  | panic => simp [hd] at h
+  | err e => simp [hd] at h
+  | ok ds =>
+    simp only [hd] at h
+    refine ⟨ds, rfl, ?_⟩
+    unfold restoreDecoded at h
+    cases hc : checkDigests P [] with
+    | panic => simp [hc] at h
+    | err e => simp [hc] at h
+    | ok seen =>
+      simp only [hc] at h
+      cases hv : checkValues ds seen with
+      | panic => simp [hv] at h
+      | err e => simp [hv] at h
+      | ok s =>
+        obtain ⟨e1, _, e3, e4, e5⟩ := checkDigests_ok P [] seen hc
+        obtain ⟨f1, f2, f3, f4⟩ := checkValues_spec ds seen s hv
+        simp only [List.nil_append] at e1
+        subst e1
+        refine ⟨?_, e4, e5, f4⟩
+        rw [List.nodup_append]
+        refine ⟨e3, f3, ?_⟩
+        intro a ha b hb hab
+        subst hab
+        exact f2 a hb ha
+
+end Impl
